@@ -109,8 +109,8 @@ func stringGetOwnProperty(obj *object, name string) *property {
 		return prop
 	}
 	// TODO Test a string of length >= +int32 + 1?
-	// 15.5.5.2: only the canonical form of an index names a character.
-	if index := stringToArrayIndex(name); index >= 0 && strconv.FormatInt(index, 10) == name {
+	// 15.5.5.2: only the canonical form of an index (all stringToArrayIndex accepts) names a character.
+	if index := stringToArrayIndex(name); index >= 0 {
 		if chr := stringAt(obj.stringValue(), int(index)); chr != stringAtNone {
 			return &property{stringValue(string(chr)), 0o010}
 		}
